@@ -1055,6 +1055,9 @@ func c08Corpus() []c08Case {
 		// rewritten header's maxTimestamp must be the running maximum (+50), not the last
 		// kept record's (+20); the chained restore to +30 then keeps exactly one record
 		{T: T + 60, Segs: []c08Seg{{Part: 0, Created: T, Interval: 1, Batches: []c08Batch{{Recs: []c08Rec{rec(T), rec(T + 50), rec(T + 20), rec(T + 70)}}}}}, Faults: []int{}, Chain: 31},
+		// boundary: the first batch's maxTimestamp EQUALS the cutoff and later batches are at
+		// or below it (non-monotone across batches): all of them are kept
+		{T: T, Segs: []c08Seg{{Part: 0, Created: T - 1, Interval: 1, Batches: []c08Batch{{Recs: []c08Rec{rec(T - 1), rec(T)}}, {Recs: []c08Rec{rec(T - 2)}}, {Recs: []c08Rec{rec(T)}}, {Recs: []c08Rec{rec(T + 1)}}}}}, Faults: []int{}, Chain: 1},
 		// cut inside the only batch
 		{T: T, Segs: []c08Seg{{Part: 0, Created: T - 1, Interval: 1, Batches: []c08Batch{{Recs: []c08Rec{rec(T - 1), rec(T), rec(T + 1)}}}}}, Faults: []int{}},
 		// first candidate created after T; second segment never copied
